@@ -4,12 +4,11 @@ package main
 import (
 	"verifharness/hx"
 
-	"github.com/fatedier/frp/pkg/util/log"
 )
 
 var drivers = map[string]hx.DriverFn{}
 
 func main() {
-	log.InitLogger("/dev/null", "error", 0, true)
+	hx.Quiet()
 	hx.Main(drivers)
 }
